@@ -5,7 +5,8 @@ from core import enc, q
 
 ID = "C01"
 HEAP_SUMMARY = True      # end every program with the reference-level observation (BB.Model.Heap vs id() walk)
-UNIVERSAL_EVERY = 12      # every n-th case is a feature-rich random program (props/universal.py)
+UNIVERSAL_EVERY = 8      # every n-th case is a feature-rich random program (props/universal.py)
+UNIVERSAL_KIND = "both"      # alternately the blueprint-level and the sequence-level program
 LEAN_MODULE = "BB.Properties.C01"
 QUICK_N = 600
 THOROUGH_N = 6000
